@@ -73,6 +73,15 @@ def pass_rule(rule, facts, fn, permit_field, ban_field, key_desc, limit_kind, ba
         if fmt_short(inner) == "self.enabled":
             en_true.append((bi, tr)); en_false.append((bi, f))
     allows = [(bi, t) for bi, t in b.calls() if (t.callee() or "").endswith("rate_limiter::RateLimiter::allows")]
+    # a limiter call inside a closure handed to a combinator (`self.rate_limiter.as_mut().is_some_and(|rl| rl.allows(&kind).is_err())`) is consulted
+    # where the combinator is called: it is listed under that block, with its arguments rewritten into this function's terms
+    for cb, cp, to_caller in closures_of(facts, b):
+        for cbi, ct in cb.calls():
+            if not (ct.callee() or "").endswith("rate_limiter::RateLimiter::allows"):
+                continue
+            host = [(bi, t) for bi, t in b.calls() if any(isinstance(x, tuple) and x and x[0] == "agg" and x[1] == "closure:" + cb.path for a in t.args for x in walk(p.operand(a)))]
+            if len(host) == 1:
+                allows.append((host[0][0], _ClosureCall(ct, [canon(to_caller(cp.operand(a))) for a in ct.args], (cb.path, cbi))))
     others = [bi for bi, t in b.calls() if callee_matches(t, r"HashMap::<.*>::insert$", r"HashMap::insert$", r"LruCache::<.*>::(insert|get_mut)$", r"LruCache::(insert|get_mut)$")]
     if not (permit_true and banned_true and en_true and allows):
         raise AnchorError("%s: permit / ban / enabled tests or limiter calls not found" % fn)
@@ -131,8 +140,8 @@ def r1(ctx):
     # within a stage: the sender's own quota is consulted (and, if exceeded, the sender banned) before the shared total quota is charged -
     # otherwise a sender over its quota drains the total budget of everyone else, and is dropped without being banned once the total is spent
     b, p, g, allows, trues, falses = ctx.c18["initial_pass"]
-    own = [(bi, t) for bi, t in allows if any(x[0] == "agg" and x[1].endswith("LimitKind::Ip") for x in walk(p.operand(t.args[1])))]
-    total = [(bi, t) for bi, t in allows if any(x[0] == "agg" and x[1].endswith("LimitKind::Total") for x in walk(p.operand(t.args[1])))]
+    own = [(bi, t) for bi, t in allows if any(x[0] == "agg" and x[1].endswith("LimitKind::Ip") for x in walk(_arg(p, t, 1)))]
+    total = [(bi, t) for bi, t in allows if any(x[0] == "agg" and x[1].endswith("LimitKind::Total") for x in walk(_arg(p, t, 1)))]
     own_ok = []
     for bi, t, e in g.switches():
         inner, neg = e, False
@@ -207,6 +216,25 @@ def r1(ctx):
     return rule
 
 
+class _ClosureCall:
+    """a call found in a closure, presented like a terminator of the enclosing function"""
+    def __init__(self, t, exprs, key):
+        self.t, self.exprs, self.key = t, exprs, key
+        self.line = t.line
+        self.args = t.args
+
+    def callee(self):
+        return self.t.callee()
+
+
+def _arg(p, t, i):
+    return t.exprs[i] if isinstance(t, _ClosureCall) else p.operand(t.args[i])
+
+
+def _akey(b, bi, t):
+    return t.key if isinstance(t, _ClosureCall) else (b.path, bi)
+
+
 def r2(ctx):
     facts = ctx.facts
     rule = Rule("C18.R2", "excess is banned for the configured duration (Ip / NodeId); exceeding the total quota drops without banning", floor=5,
@@ -216,9 +244,9 @@ def r2(ctx):
             raise AnchorError("%s: the stage tests were not identified (see C18.R1)" % fn)
         b, p, g, allows, trues, falses = ctx.c18[fn]
         for abi, at in allows:
-            lk = p.operand(at.args[1])
+            lk = _arg(p, at, 1)
             kinds = [x[1].split("::")[-1] for x in roots(lk) if x[0] == "agg" and "LimitKind::" in x[1]]
-            akey = (b.path, abi)
+            akey = _akey(b, abi, at)
             err_edges = []
             for bi, t, e in g.switches():
                 inner, neg = e, False
@@ -252,8 +280,8 @@ def r2(ctx):
                     rule.check(drops and nb, "%s: allows(Total) = Err -> drop without banning" % fn, "%s|excess-Total" % fn,
                                "%s bans (or passes) on exceeding the total quota" % fn, loc=b.loc(at.line))
         # the closure computing the ban expiry
-        for pth, cb in facts.bodies.items():
-            if pth.startswith(F + fn + "::{closure#") and cb.arg_count == 2:
+        for cb, _cp, _tc in closures_of(facts, b):      # the closures built in this function (after inlining, those of a `ban_timeout()` helper too)
+            if cb.arg_count == 2:
                 cp = Prov(cb, facts)
                 e = cp.local(0)
                 s = fmt_short(e)
